@@ -130,6 +130,9 @@ func (x *Exec) heap(st *State, name, srt string) string {
 		if strings.HasPrefix(name, "GV$") && ep == 0 && x.L.immutableGlobals[strings.TrimPrefix(name, "GV$")] && x.L.nonNilGlobals[strings.TrimPrefix(name, "GV$")] && srt == "Iface" {
 			st.emit(fmt.Sprintf("(assert (not (= %s (mk_iface 0 0))))", v))
 		}
+		if strings.HasPrefix(name, "GV$") && ep == 0 && x.L.immutableGlobals[strings.TrimPrefix(name, "GV$")] && x.L.nonNilGlobals[strings.TrimPrefix(name, "GV$")] && srt == "Int" {
+			st.emit(fmt.Sprintf("(assert (not (= %s 0)))", v))
+		}
 	}
 	st.heaps[name] = v
 	return v
@@ -237,6 +240,13 @@ func (x *Exec) heapTypeKey(t types.Type) string {
 			return fmt.Sprintf("i%d", bits)
 		}
 		return fmt.Sprintf("u%d", bits)
+	}
+	switch u := t.Underlying().(type) {
+	case *types.Pointer:
+		// slices / maps of different pointer types cannot alias: one heap per pointee type
+		if _, isStruct := u.Elem().Underlying().(*types.Struct); isStruct {
+			return "p" + x.ctx.structName(u.Elem())
+		}
 	}
 	return mangle(x.ctx.sortOf(t))
 }
